@@ -82,7 +82,7 @@ Definition size_ok (c : cfg) (size : Z) : bool := (c_max_size c <=? 0)%Z || (siz
 Definition wanted (c : cfg) (t : node) (e : ext) (f : path * kind * Z) : bool :=
   let '(q, k, size) := f in
   reached c t q && kind_accepted c k && negb (gitignored c t q false)
-  && c_required c e (mpath q) && size_ok c size.
+  && req c e (mpath q) size no_ff && size_ok c size.
 
 (* the Extract calls a whole-tree scan of t has to make: files in listing order, extractors in
    configuration order *)
@@ -101,7 +101,7 @@ Definition reached_from (c : cfg) (t : node) (q q' : path) : bool :=
 Definition wanted_from (c : cfg) (t : node) (q : path) (e : ext) (f : path * kind * Z) : bool :=
   let '(q', k, size) := f in
   reached_from c t q q' && kind_accepted c k && negb (gitignored c t q' false)
-  && c_required c e (mpath q') && size_ok c size.
+  && req c e (mpath q') size no_ff && size_ok c size.
 
 (* the calls owed for the sub-tree nd found at q *)
 Definition expected_from (c : cfg) (t : node) (q : path) (nd : node) : list (ext * path) :=
@@ -118,7 +118,7 @@ Definition expected_for_path (c : cfg) (t : node) (p : path) : list (ext * path)
   | Some (Dir n ch df) => expected_from c t (spath p) (Dir n ch df)
   | Some (File _ k size _ _) =>
       if kind_accepted c k && size_ok c size
-      then map (fun e => (e, p)) (filter (fun e => c_required c e p) (c_exts c)) else []
+      then map (fun e => (e, p)) (filter (fun e => req c e p size no_ff) (c_exts c)) else []
   end.
 
 Definition expected_paths (c : cfg) (t : node) : list (ext * path) :=
@@ -126,7 +126,7 @@ Definition expected_paths (c : cfg) (t : node) : list (ext * path) :=
 
 (* the same configuration as a whole-tree scan *)
 Definition whole_tree (c : cfg) : cfg := {|
-  c_exts := c_exts c; c_required := c_required c; c_extract := c_extract c; c_pat := c_pat c;
+  c_exts := c_exts c; c_required := c_required c; c_statreq := c_statreq c; c_extract := c_extract c; c_pat := c_pat c;
   c_skip_list := c_skip_list c; c_re := c_re c; c_glob := c_glob c; c_gitignore := c_gitignore c;
   c_ignore_subdirs := false; c_paths := []; c_symlinks := c_symlinks c;
   c_max_inodes := c_max_inodes c; c_max_size := c_max_size c; c_fatal := c_fatal c; c_cancel := c_cancel c |}.
@@ -186,8 +186,3 @@ Definition no_limits (c : cfg) : bool :=
   (c_max_inodes c <=? 0)%Z && match c_cancel c with NoCancel => true | _ => false end.
 
 Definition is_none {A} (o : option A) : bool := match o with None => true | Some _ => false end.
-
-(* the domain on which the engine meets the C01 specification (see the _refuted theorems):
-   regex and glob are not both set, and the root's own .gitignore is absent or gitignore handling is off *)
-Definition dom_C01 (c : cfg) (t : node) : bool :=
-  (is_none (c_re c) || is_none (c_glob c)) && (negb (c_gitignore c) || is_none (gi_of t [])).
